@@ -20,6 +20,8 @@ pub enum Flavour {
     ExAllow,
     ExBlock,
     ExVotes,
+    /// RWA token behind permissive compliance / identity mocks (C02 only: holder-initiated entry points)
+    Rwa,
 }
 
 pub const ALL_FLAVOURS: [Flavour; 8] = [
@@ -44,10 +46,12 @@ impl Flavour {
             Flavour::ExAllow => "ex-allowlist",
             Flavour::ExBlock => "ex-blocklist",
             Flavour::ExVotes => "ex-votes",
+            Flavour::Rwa => "rwa",
         }
     }
     pub fn has_burn(&self) -> bool {
-        !matches!(self, Flavour::ExBlock | Flavour::ExVotes)
+        // the RWA burn is a supervisory operation, not a holder's
+        !matches!(self, Flavour::ExBlock | Flavour::ExVotes | Flavour::Rwa)
     }
     pub fn has_mint(&self) -> bool {
         !matches!(self, Flavour::ExAllow | Flavour::ExBlock)
@@ -345,6 +349,11 @@ impl<'a> Token<'a> {
                 (name, sym, u[OWNER].clone(), u[MANAGER].clone(), initial),
             ),
             Flavour::ExVotes => e.register(examples::fungible_votes::ExampleContract, (u[OWNER].clone(),)),
+            Flavour::Rwa => {
+                let comp = e.register(crate::contracts::rwa::MockCompliance, ());
+                let idv = e.register(crate::contracts::rwa::MockIdentity, ());
+                e.register(crate::contracts::rwa::RwaTok, (comp, idv))
+            }
         };
         let evs = obs::events(e).into_iter().filter(|x| x.contract == addr).collect();
         (Token { w, addr, fl, u }, evs)
